@@ -20,7 +20,7 @@ EvOf(S) == {p[2] : p \in S}
 InNoHistory(o, e) == \A b \in DOMAIN o.hist : ~InSeq(e, o.hist[b])
 SomeBounded(cfg) == \E b \in BusNames(cfg) : MaxHist(cfg, b) > 0
 
-CompletionClauses == {"C03.hang", "C03.incomplete", "C03.not_completed", "C10.incomplete"}
+CompletionClauses == {"C03.hang", "C03.incomplete", "C03.not_completed", "C10.incomplete", "C04.incomplete"}
 
 Classify(cfg, o, w) ==
   CASE w.c = "C05.unrelated" /\ w.k = "in"                                   -> "F0"
@@ -38,6 +38,6 @@ Classify(cfg, o, w) ==
     [] w.c = "C15.hang" /\ \E p \in StrandedR(cfg, o) : p[1] = w.b           -> "F2"
     [] w.c = "C15.hang" /\ \E p \in AbandonedC(o) : p[1] = w.b               -> "F5"
     [] w.c \in {"C03.hang", "C03.not_completed", "C03.incomplete", "C04.incomplete"} /\ w.k \in {"", "completed", "processed"} /\ SomeBounded(cfg) /\
-       \E d \in Sub(o, w.e) : ~o.snap[d].sig /\ ResDone(o.snap[d]) /\ InNoHistory(o, d) -> "F11"
+       \E d \in Sub(o, w.e) : ~o.snap[d].sig /\ o.snap[d].res # <<>> /\ ResDone(o.snap[d]) /\ InNoHistory(o, d) -> "F11"
     [] OTHER                                                                 -> ""
 =============================================================================
